@@ -225,6 +225,227 @@ class Fn:
         return out
 
 
+# ------------------------------------------------------------------------------------------------
+# the comparison loops of detail/compiler.hpp  ->  Yomm2.Sel
+
+SRC_COMPARE = os.path.join(VERIF, "harness", "xlate", "compiler_inst.cpp")
+OUT_COMPARE = os.path.join(VERIF, "lean", "Yomm2", "Generated", "CompareSrc.lean")
+WRAPPERS = {"ParenExpr", "MaterializeTemporaryExpr", "ExprWithCleanups", "CXXBindTemporaryExpr"}
+SEL_CASTS = {"NoOp", "DerivedToBase", "UncheckedDerivedToBase", "LValueToRValue", "ConstructorConversion"}
+
+
+def unwrap(e):
+    while True:
+        k = e.get("kind")
+        if k in WRAPPERS or (k == "ImplicitCastExpr" and e.get("castKind") in SEL_CASTS):
+            e = kids(e)[0]
+        elif k == "CXXConstructExpr" and len(kids(e)) == 1:     # copy of an iterator
+            e = kids(e)[0]
+        else:
+            return e
+
+
+def op_call(e):
+    """(operator name, argument nodes) of a CXXOperatorCallExpr, else None"""
+    if e.get("kind") != "CXXOperatorCallExpr":
+        return None
+    ks = kids(e)
+    callee = unwrap(ks[0])
+    if callee.get("kind") == "ImplicitCastExpr":
+        callee = kids(callee)[0]
+    name = callee.get("referencedDecl", {}).get("name")
+    return name, ks[1:]
+
+
+class SelFn:
+    def __init__(self, params):
+        self.params = params      # decl id -> "a" / "b"
+        self.bools = {}           # decl id -> name
+        self.iters = {}
+        self.names = set()
+
+    def declare(self, d, table):
+        name = d.get("name")
+        if name in self.names:
+            refuse(d, "two declarations named " + name)
+        self.names.add(name)
+        table[d.get("id")] = name
+        return name
+
+    def iter_name(self, e):
+        e = unwrap(e)
+        d = e.get("referencedDecl", {})
+        if e.get("kind") == "DeclRefExpr" and d.get("id") in self.iters:
+            return self.iters[d["id"]]
+        return None
+
+    def cexpr(self, e):
+        e = unwrap(e)
+        oc = op_call(e)
+        if oc and oc[0] == "operator*" and len(oc[1]) == 1:
+            it = self.iter_name(oc[1][0])
+            if it:
+                return '(.deref "%s")' % it
+        refuse(e, "not `*iterator`")
+
+    def cov_call(self, e, method):
+        """owner->covariant_classes.<method>(...): (owner, [args])"""
+        e = unwrap(e)
+        if e.get("kind") != "CXXMemberCallExpr":
+            return None
+        ks = kids(e)
+        callee = ks[0]
+        if callee.get("kind") != "MemberExpr" or callee.get("name") != method:
+            return None
+        cont = unwrap(kids(callee)[0])
+        if cont.get("kind") != "MemberExpr" or cont.get("name") != "covariant_classes" or not cont.get("isArrow"):
+            refuse(e, "%s() on something that is not owner->covariant_classes" % method)
+        return self.cexpr(kids(cont)[0]), ks[1:]
+
+    def bexpr(self, e):
+        e = unwrap(e)
+        k = e.get("kind")
+        if k == "CXXBoolLiteralExpr":
+            return "(.lit %s)" % ("true" if e.get("value") else "false")
+        if k == "DeclRefExpr" and e.get("referencedDecl", {}).get("id") in self.bools:
+            return '(.var "%s")' % self.bools[e["referencedDecl"]["id"]]
+        if k == "UnaryOperator" and e.get("opcode") == "!":
+            return "(.not %s)" % self.bexpr(kids(e)[0])
+        if k == "BinaryOperator" and e.get("opcode") in ("!=", "=="):
+            a, b = kids(e)
+            return "(%s %s %s)" % (".classNe" if e["opcode"] == "!=" else ".classEq", self.cexpr(a), self.cexpr(b))
+        oc = op_call(e)
+        if oc and oc[0] in ("operator!=", "operator==") and len(oc[1]) == 2:
+            i, j = self.iter_name(oc[1][0]), self.iter_name(oc[1][1])
+            if i and j:
+                if oc[0] == "operator!=":
+                    return '(.iterNe "%s" "%s")' % (i, j)
+                return '(.not (.iterNe "%s" "%s"))' % (i, j)
+            f, en = self.cov_call(oc[1][0], "find"), self.cov_call(oc[1][1], "end")
+            if f and en:
+                owner, args = f
+                if en[0] != owner or en[1] or len(args) != 1:
+                    refuse(e, "find() and end() of different containers")
+                return "(%s %s %s)" % (".inCov" if oc[0] == "operator!=" else ".notInCov", owner, self.cexpr(args[0]))
+        refuse(e, "not a condition I know")
+
+    def stmt(self, s):
+        k = s.get("kind")
+        if k == "CompoundStmt":
+            return Fn.seq([self.stmt(c) for c in kids(s)])
+        if k == "NullStmt":
+            return ".skip"
+        if k == "ReturnStmt":
+            if not kids(s):
+                refuse(s, "return without a value")
+            return "(.ret %s)" % self.bexpr(kids(s)[0])
+        if k == "DeclStmt":
+            out = []
+            for d in kids(s):
+                if d.get("kind") != "VarDecl" or not kids(d):
+                    refuse(d, "declaration without initialiser")
+                ty = d.get("type", {}).get("qualType", "")
+                init = kids(d)[0]
+                if ty == "bool":
+                    v = self.bexpr(init)
+                    out.append('(.setBool "%s" %s)' % (self.declare(d, self.bools), v))
+                    continue
+                call = unwrap(init)
+                if call.get("kind") == "CXXMemberCallExpr":
+                    callee = kids(call)[0]
+                    which = callee.get("name")
+                    vec = unwrap(kids(callee)[0]) if kids(callee) else {}
+                    par = unwrap(kids(vec)[0]) if vec.get("kind") == "MemberExpr" and vec.get("name") == "vp" and vec.get("isArrow") else {}
+                    pid = par.get("referencedDecl", {}).get("id")
+                    if which in ("begin", "end", "cbegin", "cend") and pid in self.params and len(kids(call)) == 1:
+                        out.append('(%s "%s" "%s")' % (".declBegin" if "begin" in which else ".declEnd", self.declare(d, self.iters), self.params[pid]))
+                        continue
+                refuse(d, "declaration that is neither a bool nor param->vp.begin() / end()")
+            return Fn.seq(out)
+        if k == "BinaryOperator" and s.get("opcode") == "=":
+            lhs, rhs = kids(s)
+            d = lhs.get("referencedDecl", {})
+            if lhs.get("kind") == "DeclRefExpr" and d.get("id") in self.bools:
+                return '(.setBool "%s" %s)' % (self.bools[d["id"]], self.bexpr(rhs))
+            refuse(s, "assignment to something that is not a bool variable")
+        if k == "IfStmt":
+            cs = kids(s)
+            if s.get("hasInit") or s.get("hasVar") or len(cs) not in (2, 3):
+                refuse(s, "if with initialiser or condition variable")
+            return "(.ite %s %s %s)" % (self.bexpr(cs[0]), self.stmt(cs[1]), self.stmt(cs[2]) if len(cs) == 3 else ".skip")
+        if k == "ForStmt":
+            raw = s.get("inner") or []
+            if len(raw) != 5 or raw[0] or raw[1] or not raw[2] or not raw[4]:
+                refuse(s, "for loop with an init statement or a condition variable, or without condition")
+            incs = self.incs(raw[3]) if raw[3] else []
+            return "(.forLoop %s [%s] %s)" % (self.bexpr(raw[2]), ", ".join('"%s"' % i for i in incs), self.stmt(raw[4]))
+        refuse(s, "statement I have no constructor for")
+
+    def incs(self, e):
+        e = unwrap(e)
+        if e.get("kind") == "BinaryOperator" and e.get("opcode") == ",":
+            a, b = kids(e)
+            return self.incs(a) + self.incs(b)
+        oc = op_call(e)
+        if oc and oc[0] == "operator++":
+            it = self.iter_name(oc[1][0])
+            if it:
+                return [it]
+        refuse(e, "loop increment that is not ++iterator")
+
+
+def generate_compare():
+    p = subprocess.run(["clang++-14", "-std=c++17", "-fsyntax-only", "-I" + os.path.join(REPO, "include"), "-Xclang",
+                        "-ast-dump=json", "-Xclang", "-ast-dump-filter=yorel::yomm2::detail::compiler", SRC_COMPARE],
+                       stdout=subprocess.PIPE, stderr=subprocess.PIPE, text=True)
+    if not p.stdout.strip():
+        raise Refuse("clang produced no AST: " + p.stderr[-400:])
+    want = {"is_more_specific": None, "is_base": None}
+
+    def walk(n, inspec):
+        if n.get("kind") == "ClassTemplateSpecializationDecl" and n.get("name") == "compiler":
+            inspec = True
+        if inspec and n.get("kind") == "CXXMethodDecl" and n.get("name") in want and body_of(n) is not None and want[n["name"]] is None:
+            pars = [c for c in kids(n) if c.get("kind") == "ParmVarDecl"]
+            if len(pars) != 2:
+                refuse(n, "expected two parameters")
+            fn = SelFn({pars[0].get("id"): "a", pars[1].get("id"): "b"})
+            want[n["name"]] = fn.stmt(body_of(n))
+        for c in kids(n):
+            walk(c, inspec)
+    for t in stream(p.stdout):
+        walk(t, False)
+    missing = [k for k, v in want.items() if v is None]
+    if missing:
+        raise Refuse("no instantiated body found for " + ", ".join(missing))
+    lines = ["import Yomm2.MiniSel",
+             "/-! Generated by tools/cpp2lean.py from clang's AST of detail/compiler.hpp as instantiated by",
+             "    harness/xlate/compiler_inst.cpp, compiled against /repo. Do not edit. The first parameter is",
+             "    called `a`, the second `b`; locals keep their names. -/",
+             "namespace Yomm2.Generated.CompareSrc",
+             "open Yomm2.Sel", ""]
+    for name in ("is_more_specific", "is_base"):
+        lines.append("def %s : Stmt :=\n  %s" % (name, want[name]))
+        lines.append("")
+    lines.append("end Yomm2.Generated.CompareSrc")
+    return "\n".join(lines) + "\n"
+
+
+STUB_COMPARE = """import Yomm2.MiniSel
+/-! Written by tools/cpp2lean.py because the functions could not be translated on this run:
+    %s
+    The bodies below are placeholders; the proofs about the translated source cannot hold for them. -/
+namespace Yomm2.Generated.CompareSrc
+open Yomm2.Sel
+
+def translationRefused : String := %s
+def is_more_specific : Stmt := .skip
+def is_base : Stmt := .skip
+
+end Yomm2.Generated.CompareSrc
+"""
+
+
 def body_of(m):
     for c in kids(m):
         if c.get("kind") == "CompoundStmt":
@@ -337,6 +558,17 @@ def main():
     old = open(OUT).read() if os.path.exists(OUT) else None
     if old != text:
         with open(OUT, "w") as f:
+            f.write(text)
+    try:
+        text = generate_compare()
+    except Refuse as ex:
+        msg = "cannot translate is_more_specific / is_base of compiler.hpp: %s" % ex
+        print("cpp2lean: " + msg, file=sys.stderr)
+        text = STUB_COMPARE % (msg.replace("-/", "- /"), json.dumps(msg))
+        rc = 1
+    old = open(OUT_COMPARE).read() if os.path.exists(OUT_COMPARE) else None
+    if old != text:
+        with open(OUT_COMPARE, "w") as f:
             f.write(text)
     return rc
 
